@@ -196,10 +196,10 @@ def gen_sprout(rng, height):
     dfs = []
     if gen == "best":
         if rng.random() < 0.7:
-            dfs.append({"kind": "FarEnough", "d": rng.choice([0.0, 0.1, 1.0]), "ord": rng.choice([2, 1])})
+            dfs.append({"kind": "FarEnough", "d": rng.choice([0.0, 0.1, 1.0]), "ord": rng.choice([2, 1, "inf"])})
     else:
         if rng.random() < 0.7:
-            dfs.append({"kind": "NBC_FarEnough", "f": rng.choice([0.0, 1.0, 2.0]), "ord": 2, "only_active": rng.random() < 0.5})
+            dfs.append({"kind": "NBC_FarEnough", "f": rng.choice([0.0, 1.0, 2.0]), "ord": rng.choice([2, 2, 1, "inf"]), "only_active": rng.random() < 0.5})
     if rng.random() < 0.7:
         dfs.append({"kind": "DemeLimit", "n": rng.randint(1, 3)})
     tfs = [{"kind": "LevelLimit", "n": L}]
@@ -458,9 +458,9 @@ def build(spec, objective_wrapper=None, session=None):
         dfs = []
         for f in s["deme_filters"]:
             if f["kind"] == "FarEnough":
-                dfs.append(FarEnough(f["d"], f["ord"]))
+                dfs.append(FarEnough(f["d"], np.inf if f["ord"] == "inf" else f["ord"]))
             elif f["kind"] == "NBC_FarEnough":
-                dfs.append(NBC_FarEnough(f["f"], f["ord"], f["only_active"]))
+                dfs.append(NBC_FarEnough(f["f"], np.inf if f["ord"] == "inf" else f["ord"], f["only_active"]))
             elif f["kind"] == "Mahalanobis":
                 from pyhms.sprout.sprout_filters import MahalanobisFarEnough
                 dfs.append(MahalanobisFarEnough(f["p"]))
